@@ -3,8 +3,9 @@
 Protocol (one line per request, ASCII):
   fmt   <fg> <bg> <eff> <nc> <text>          str(ColorFmt(fg, bg_color=bg, ..., no_color=nc)(text))
   bytes <fg> <bg> <eff> <nc> <bytes>         ColorBytes(...)(bytes)
-  cht   <n> (<fg> <bg> <eff> <nc> <text>)*n  t = CHText(*parts): str(t), t.plain_text(), strip_colors(str(t))
-                                             (fg = P: the part is a plain str, not a chunk)
+  cht   <n> (<fg> <bg> <eff> <nc> <text>)*n @ <value>
+                                             t = CHText(*parts): str(t), t.plain_text(), strip_colors(str(t)) and t's
+                                             own chunk list (fg = P: the part is a plain str, not a chunk)
   pfmt  <text>                               str(ColorFmt.get_plaintext_fmt()(text))
   seq   <n> entries                          several calls in ONE process, in order; entry =
                                              F <fg> <bg> <eff> <nc> <text>   f = ColorFmt(...); str(f(text))
@@ -18,6 +19,12 @@ Protocol (one line per request, ASCII):
   ops   <k> (<fg> <bg> <eff> <nc>)*k program postfix program over CHText operations (token language of C08:
                                              s: c:<id>: ls: tp: mk: add iadd join: idx: sl: fl: dupiadd dupiaddl);
                                              str / plain_text / strip of the resulting CHText or chunk
+  cht / hist / ops lines end with `@ <value> ...`: the chunk list(s) `id:text/id:text` (`_` = none, E:<Name> = the
+  operations raised) that the REAL object reported when the case was generated. The driver renders that value
+  (C09.value_shows is about every value) and the oracle judges str(x) against the object's own chunk list, so a
+  change that only breaks what a CHText operation produces (C08) is no C09 alarm. Each such line has a diagnostic
+  twin chtm / histm / opsm (no data) where the model evaluates the operations itself; differences there are logged
+  as diagnostics and never reach the verdict.
   strip <text>                               CHText.strip_colors(text)
   term  <text>                               diagnostic: what a terminal shows (Lean `Sgr.interp` against the
                                              oracle's Python terminal; the real code is not involved)
@@ -54,7 +61,9 @@ RULE = ("fmt: every fg x bg pair of the 8 names, all 256 ints, all 216 cube trip
         "flags, random mixes of kinds, malformed values (ints/tuples out of range, wrong lengths, unknown and mangled names, "
         "floats, tuples with float members, bytes), no_color with valid and invalid values, random ESC-free unicode texts; "
         "bytes: the same specs with random ESC-free payloads; cht: CHText of 0..7 parts (chunks of a small pool of "
-        "formatters so that neighbours merge, plain strs, empty texts); seq: 2..6 calls in one process - a valid int/tuple "
+        "formatters so that neighbours merge, plain strs, empty texts); cht/hist/ops are judged on the object's OWN chunk "
+        "list (rendering, attributes, default state between chunks, strip = plain = chunk texts), the model renders that "
+        "list; what the operations produce is compared as a diagnostic only; seq: 2..6 calls in one process - a valid int/tuple "
         "followed/preceded by an equal-but-invalid float value in the same role (every int in thorough), repeated "
         "identical calls, formatter objects used again, the shared plain formatter, invalid calls in between, repeated "
         "texts; hist: one CHText object mutated (+= chunk of the same / another colour, += str, += itself, += [itself], "
@@ -247,8 +256,15 @@ def translate(repo):
            "def stripFinal : Char := Char.ofNat %d" % fin, "", "end Gen.C09", ""]
     files = {"AkVerif/Gen/C09.lean": "\n".join(out)}
     # Model/SgrText.lean composes with the CHText model of C08, which imports its own generated constants
-    from harness import c08
-    files.update(c08.translate(repo))
+    # (its constants do not occur in any C09 theorem). A source the C08 translator does not understand is C08's
+    # finding, not C09's: the last generated file stays in place then.
+    try:
+        from harness import c08
+        files.update(c08.translate(repo))
+    except Exception:
+        if not os.path.exists(os.path.join(os.path.dirname(os.path.dirname(os.path.abspath(__file__))),
+                                           "lean", "AkVerif", "Gen", "C08.lean")):
+            raise
     return files
 
 
@@ -351,18 +367,56 @@ def _err(e):
     return "err " + type(e).__name__
 
 
+def _pair(f):
+    """the prefix/suffix pair a formatter puts around a text"""
+    c = f("")
+    return (c.c_prefix, c.c_suffix)
+
+
 def _parts(toks):
+    """-> (parts for CHText(*parts), prefix/suffix pairs of colour ids 0 (plain), 1..n (the parts' formatters))"""
     m = _mod()
     n = int(toks[0])
-    parts = []
+    parts, pairs = [], [("", "")]
     for i in range(n):
         p = toks[1 + 5 * i: 6 + 5 * i]
         if p[0] == "P":
             parts.append(dec_str(p[4]))
+            pairs.append(("", ""))
         else:
             fg, kw = _kwargs(p)
-            parts.append(m.ColorFmt(fg, **kw)(dec_str(p[4])))
-    return parts
+            f = m.ColorFmt(fg, **kw)
+            parts.append(f(dec_str(p[4])))
+            pairs.append(_pair(f))
+    return parts, pairs
+
+
+def split_data(toks):
+    """tokens of a cht/hist/ops line -> (the request, the data after '@' or None)"""
+    if "@" in toks:
+        i = toks.index("@")
+        return toks[:i], toks[i + 1:]
+    return toks, None
+
+
+_ADDR = re.compile(r"0x[0-9a-fA-F]{6,16}")
+
+
+def _canon(text):
+    """object addresses (they get into a text through str(object)) are never compared"""
+    return _ADDR.sub("0xADDR", text)
+
+
+def _own_chunks(x, pairs):
+    """the object's own state: its chunk list as (colour id, text) pairs; `u` = a chunk whose prefix/suffix
+    pair none of the line's formatters produced"""
+    m = _mod()
+    chunks = x.chunks if isinstance(x, m.CHText) else [x]
+    out = []
+    for c in chunks:
+        pr = (c.c_prefix, c.c_suffix)
+        out.append("%s:%s" % (pairs.index(pr) if pr in pairs else "u", enc_str(_canon(c.text))))
+    return "/".join(out) or "_"
 
 
 def _formatters(toks):
@@ -381,10 +435,16 @@ def _chunk_of(fmts, cid, text):
     return (m.ColorFmt.get_plaintext_fmt() if cid == 0 else fmts[cid - 1])(text)
 
 
-def _look(x):
+def _look(x, pairs=None):
+    """one observation: str(x), x.plain_text(), strip_colors(str(x)) and (observable lines) the object's own
+    chunk list; the model-evaluated diagnostic lines (pairs=None) have no chunk list"""
     m = _mod()
     s = str(x)
-    return "%s %s %s" % (enc_str(s), enc_str(x.plain_text()), enc_str(m.CHText.strip_colors(s)))
+    base = "%s %s %s" % (enc_str(_canon(s)), enc_str(_canon(x.plain_text())), enc_str(_canon(m.CHText.strip_colors(s))))
+    if pairs is None:
+        return base
+    own = _own_chunks(x, pairs)
+    return "foreign" if "u:" in own else base + " " + own
 
 
 def _run_seq(toks):
@@ -429,9 +489,10 @@ def _run_seq(toks):
     return "ok " + "|".join(res)
 
 
-def _run_hist(toks):
+def _run_hist(toks, own=True):
     m = _mod()
     fmts, ops = _formatters(toks)
+    pairs = [("", "")] + [_pair(f) for f in fmts] if own else None
     x = m.CHText()
     looks = []
     for tok in ops:
@@ -447,19 +508,20 @@ def _run_hist(toks):
         elif f[0] == "cl":
             x = m.CHText(x)
         elif f[0] == "r":
-            looks.append(_look(x))
+            looks.append(_look(x, pairs))
         else:
             raise RuntimeError("bad hist op " + tok)
-    return "ok " + "|".join(looks)
+    return looks
 
 
 def _opt_int(t):
     return None if t == "n" else int(t)
 
 
-def _run_ops(toks):
+def _run_ops(toks, own=True):
     m = _mod()
     fmts, prog = _formatters(toks)
+    pairs = [("", "")] + [_pair(f) for f in fmts] if own else None
     st = []
     for tok in prog:
         f = tok.split(":")
@@ -508,8 +570,66 @@ def _run_ops(toks):
         raise RuntimeError("program leaves %d values" % len(st))
     x = st[0]
     if isinstance(x, (m.CHText, m.CHText.Chunk)):
-        return "ok " + _look(x)
-    return "other"
+        return [_look(x, pairs)]
+    raise RuntimeError("program leaves a %s" % type(x).__name__)
+
+
+class StepBudget(Exception):
+    """the real operations did not finish within the step budget (a hang is a finding of C08, not of C09)"""
+
+
+def _with_budget(fn, steps=300000):
+    import sys
+    left = [steps]
+
+    def tr(frame, event, arg):
+        left[0] -= 1
+        if left[0] < 0:
+            raise StepBudget()
+        return tr
+    old = sys.gettrace()
+    sys.settrace(tr)
+    try:
+        return fn()
+    finally:
+        sys.settrace(old)
+
+
+def observe(op, toks):
+    return _with_budget(lambda: _observe(op, toks))
+
+
+def _observe(op, toks):
+    """runs the request of a cht/hist/ops line (or of its model-evaluated diagnostic twin) on the real code;
+    -> the observations (raises what the real code raises)"""
+    m = _mod()
+    own = not op.endswith("m")
+    if op in ("cht", "chtm"):
+        parts, pairs = _parts(toks)
+        return [_look(m.CHText(*parts), pairs if own else None)]
+    if op in ("hist", "histm"):
+        return _run_hist(toks, own)
+    return _run_ops(toks, own)
+
+
+def attach(line):
+    """cht/hist/ops request -> the protocol line: the request, '@', and as DATA the chunk list the real object
+    reports at every observation (E:<Name> when the real operations raise). The driver renders that value;
+    it does not evaluate the operations (what they should produce is C08's property)."""
+    op, *a = line.split()
+    head = split_data(a)[0]
+    try:
+        looks = observe(op, head)
+        data = ["u" if l == "foreign" else l.split()[3] for l in looks]
+    except Exception as e:
+        data = ["E:" + type(e).__name__]
+    return " ".join([op] + head + ["@"] + data)
+
+
+def twin(line):
+    """the diagnostic twin of an observable line: the model evaluates the operations itself (as C08 does)"""
+    op, *a = line.split()
+    return " ".join([op + "m"] + split_data(a)[0])
 
 
 def impl(case):
@@ -524,18 +644,12 @@ def impl(case):
             elif op == "bytes":
                 fg, kw = _kwargs(a)
                 out.append("ok " + enc_bytes(m.ColorBytes(fg, **kw)(dec_bytes(a[4]))))
-            elif op == "cht":
-                t = m.CHText(*_parts(a))
-                s = str(t)
-                out.append("ok %s %s %s" % (enc_str(s), enc_str(t.plain_text()), enc_str(m.CHText.strip_colors(s))))
+            elif op in ("cht", "hist", "ops", "chtm", "histm", "opsm"):
+                out.append("ok " + "|".join(observe(op, split_data(a)[0])))
             elif op == "pfmt":
                 out.append("ok " + enc_str(str(m.ColorFmt.get_plaintext_fmt()(dec_str(a[0])))))
             elif op == "seq":
                 out.append(_run_seq(a))
-            elif op == "hist":
-                out.append(_run_hist(a))
-            elif op == "ops":
-                out.append(_run_ops(a))
             elif op == "strip":
                 out.append("ok " + enc_str(m.CHText.strip_colors(dec_str(a[0]))))
             elif op == "term":
@@ -548,7 +662,8 @@ def impl(case):
 
 
 def observable(i, line):
-    return not line.startswith("term ")
+    """diagnostics only: the terminal cross-check and the lines where the model evaluates CHText operations"""
+    return not line.startswith(("term ", "chtm ", "histm ", "opsm "))
 
 
 # ------------------------------------------------------------------ oracle: a terminal + the statement
@@ -610,13 +725,19 @@ def _sgr(state, params, lenient):
     return fg, bg, fl
 
 
-def terminal(s, state=DEFAULT, lenient=False):
+def terminal(s, state=DEFAULT, lenient=False, resets=None):
     """what a terminal shows: ([(char, state)], final state) or None when `s` contains anything but
-    printable text and complete SGR sequences of the supported subset"""
+    printable text and complete SGR sequences of the supported subset.
+    resets (a list, filled per shown character): was the terminal in default state at some moment since the
+    previous character was shown (or since the start)"""
     cells, i = [], 0
+    was_default = state == DEFAULT
     while i < len(s):
         if s[i] != ESC:
             cells.append((s[i], state))
+            if resets is not None:
+                resets.append(was_default)
+            was_default = state == DEFAULT
             i += 1
             continue
         if s[i + 1:i + 2] != "[":
@@ -629,6 +750,7 @@ def terminal(s, state=DEFAULT, lenient=False):
         state = _sgr(state, s[i + 2:j], lenient)
         if state is None:
             return None
+        was_default = was_default or state == DEFAULT
         i = j + 1
     return cells, state
 
@@ -766,80 +888,35 @@ def _palette_states(toks):
     return v, states, toks[1 + 4 * k:]
 
 
-def _judge_look(look, cells, states, what):
-    """one observation `str plain strip` of a CHText whose cells should be `cells` = [(char, colour id)]"""
-    s, pl, stripped = (dec_str(x) for x in look.split())
-    msg = _check_shown(s, [(ch, states[cid]) for ch, cid in cells], what)
+def _judge_own(look, states, what):
+    """one observation `str plain strip chunks` judged against the object's OWN chunk list (what the operations
+    should have produced is not C09's question): the terminal shows exactly the chunks' characters, each with the
+    attributes requested from the chunk's formatter, it is in default state between two chunks and at the end, and
+    strip_colors(str(x)) == plain_text() == the chunk texts"""
+    if look == "foreign":
+        return None                 # a chunk no formatter of this line produced: nothing is requested for it
+    s, pl, stripped, own = look.split()
+    s, pl, stripped = dec_str(s), dec_str(pl), dec_str(stripped)
+    chunks = [] if own == "_" else [(int(c.split(":")[0]), dec_str(c.split(":")[1])) for c in own.split("/")]
+    msg = _check_shown(s, [(text, states[cid]) for cid, text in chunks], what)
     if msg:
         return msg
-    text = "".join(ch for ch, _ in cells)
+    resets = []
+    terminal(s, lenient=True, resets=resets)
+    pos = 0
+    for n, (cid, text) in enumerate(chunks):
+        if n and text and not resets[pos]:
+            return "bleed: %s: the terminal is not in default state between chunk %d and chunk %d" % (what, n - 1, n)
+        pos += len(text)
+    text = "".join(t for _, t in chunks)
     if pl != text:
-        return "plain-text: %s: plain_text() = %r, expected %r" % (what, pl, text)
+        return "plain-text: %s: plain_text() = %r, the chunks hold %r" % (what, pl, text)
     if stripped != pl:
         return "strip: %s: strip_colors(%r) = %r, plain_text() = %r" % (what, s, stripped, pl)
     return None
 
 
 _ENTRY_WIDTH = {"F": 6, "B": 6, "R": 3, "P": 2}
-
-
-class _RefIndexError(Exception):
-    pass
-
-
-def _ref_ops(prog):
-    """reference semantics of a postfix program on cells (Python's own list operations):
-    values are ('s', cells) str, ('l', cells) list/tuple (flattened), ('c', cells) chunk, ('t', cells) CHText"""
-    st = []
-
-    def cells_of(v):
-        return v[1]
-    for tok in prog:
-        f = tok.split(":")
-        k = f[0]
-        if k == "s":
-            st.append(("s", [(ch, 0) for ch in dec_str(f[1])]))
-        elif k == "c":
-            st.append(("c", [(ch, int(f[1])) for ch in dec_str(f[2])]))
-        elif k in ("ls", "tp", "mk"):
-            n = int(f[1])
-            items = st[len(st) - n:]
-            del st[len(st) - n:]
-            st.append(("t" if k == "mk" else "l", [c for it in items for c in cells_of(it)]))
-        elif k in ("add", "iadd"):
-            b = st.pop()
-            x = st.pop()
-            st.append(("t", cells_of(x) + cells_of(b)))
-        elif k in ("dupiadd", "dupiaddl"):
-            x = st.pop()
-            st.append(("t", cells_of(x) + cells_of(x)))
-        elif k == "join":
-            n = int(f[2])
-            items = st[len(st) - n:]
-            del st[len(st) - n:]
-            sep = cells_of(st.pop())
-            out = []
-            for i, it in enumerate(items):
-                if i:
-                    out += sep
-                out += cells_of(it)
-            st.append(("t", out))
-        elif k == "idx":
-            kind, cs = st.pop()
-            try:
-                st.append(("t" if kind == "t" else "c", [cs[int(f[1])]]))
-            except IndexError:
-                raise _RefIndexError()
-        elif k == "sl":
-            kind, cs = st.pop()
-            st.append((kind, cs[_opt_int(f[1]):_opt_int(f[2])]))
-        elif k == "fl":
-            kind, cs = st.pop()
-            n = int(f[1])
-            st.append(("t", cs[:n] if n < len(cs) else cs + [(" ", 0)] * (n - len(cs))))
-        else:
-            raise RuntimeError("bad program token " + tok)
-    return st[0]
 
 
 def oracle(case, replies):
@@ -894,82 +971,39 @@ def oracle(case, replies):
                     msg = _judge_call("fmt", entries[k][1:5] + [e[2]], "ok " + r[2:], "call %d: object of call %d again" % (j, k))
                     if msg:
                         return "in-sequence " + msg
-        elif op in ("hist", "ops"):
-            verdict, states, rest = _palette_states(a)
+        elif op in ("cht", "hist", "ops"):
+            head = split_data(a)[0]
+            if op == "cht":
+                n = int(head[0])
+                states, verdicts = [DEFAULT], []
+                for i in range(n):
+                    p = head[1 + 5 * i: 6 + 5 * i]
+                    if p[0] == "P":
+                        states.append(DEFAULT)
+                        continue
+                    v, st = wanted(p)
+                    if flag_on(p[3]):
+                        v, st = ("either" if v == "bad" else v), DEFAULT
+                    verdicts.append(v)
+                    states.append(st)
+                verdict = "bad" if "bad" in verdicts else "either" if "either" in verdicts else "ok"
+            else:
+                verdict, states, _ = _palette_states(head)
             if verdict == "bad":
                 if rep != "err ValueError":
                     return "invalid-accepted: %s gives %s" % (line[:80], rep[:60])
                 continue
             if verdict == "either" and rep == "err ValueError":
                 continue
-            if op == "hist":
-                if not rep.startswith("ok "):
-                    return "valid-rejected: %s gives %s" % (line[:120], rep)
-                cells, expected = [], []
-                for tok in rest:
-                    f = tok.split(":")
-                    if f[0] == "a":
-                        cells = cells + [(ch, int(f[1])) for ch in dec_str(f[2])]
-                    elif f[0] == "p":
-                        cells = cells + [(ch, 0) for ch in dec_str(f[1])]
-                    elif f[0] in ("self", "selfl"):
-                        cells = cells + cells
-                    elif f[0] == "r":
-                        expected.append(cells)
-                looks = rep[3:].split("|") if rep[3:] else []
-                if len(looks) != len(expected):
-                    return "hist: %d observations, %d expected" % (len(looks), len(expected))
-                for j, (look, cs) in enumerate(zip(looks, expected)):
-                    msg = _judge_look(look, cs, states, "observation %d of %s" % (j, line[:200]))
-                    if msg:
-                        return "history " + msg
-            else:
-                try:
-                    kind, cells = _ref_ops(rest)
-                except _RefIndexError:
-                    if rep != "err IndexError":
-                        return "ops-index: %s gives %s, an index is out of range" % (line[:200], rep[:60])
-                    continue
-                if not rep.startswith("ok "):
-                    return "ops-fails: %s gives %s" % (line[:200], rep[:60])
-                msg = _judge_look(rep[3:], cells, states, line[:300])
-                if msg:
-                    return "operations " + msg
-        elif op == "cht":
-            n = int(a[0])
-            expect, bad, either = [], False, False
-            for i in range(n):
-                p = a[1 + 5 * i: 6 + 5 * i]
-                if p[0] == "P":
-                    expect.append((dec_str(p[4]), DEFAULT))
-                    continue
-                verdict, st = wanted(p)
-                if flag_on(p[3]):
-                    st = DEFAULT
-                    if verdict == "bad":
-                        either = True
-                elif verdict == "bad":
-                    bad = True
-                elif verdict == "either":
-                    either = True
-                expect.append((dec_str(p[4]), st))
-            if bad:
-                if rep != "err ValueError":
-                    return "invalid-accepted: %s gives %s" % (line, rep[:60])
-                continue
-            if either and rep == "err ValueError":
-                continue
+            if rep == "err ValueError":
+                return "valid-rejected: %s gives %s" % (line[:120], rep)
             if not rep.startswith("ok "):
-                return "valid-rejected: %s gives %s" % (line, rep)
-            s, pl, stripped = (dec_str(x) for x in rep[3:].split())
-            text = "".join(t for t, _ in expect)
-            msg = _check_shown(s, expect, line)
-            if msg:
-                return msg
-            if pl != text:
-                return "plain-text: plain_text() = %r, parts were %r" % (pl, text)
-            if stripped != pl:
-                return "strip: strip_colors(%r) = %r, plain_text() = %r" % (s, stripped, pl)
+                continue             # another exception of a CHText operation: not this property's question
+            looks = rep[3:].split("|") if rep[3:] else []
+            for j, look in enumerate(looks):
+                msg = _judge_own(look, states, "observation %d of %s" % (j, line[:200]))
+                if msg:
+                    return {"cht": "", "hist": "history ", "ops": "operations "}[op] + msg
         elif op == "pfmt":
             if rep != "ok " + a[0]:
                 return "nocolor-esc: the plain-text formatter turns %r into %s" % (dec_str(a[0]), rep)
@@ -1085,6 +1119,10 @@ def rand_nc(rng, p_on=0.1):
 
 
 def _case(line, kind):
+    if line.split(" ", 1)[0] in ("cht", "hist", "ops"):
+        # the observable line carries the real object's own chunk list(s) as data; its twin, where the model
+        # evaluates the operations itself, is compared as a diagnostic only
+        return {"lines": [attach(line), twin(line)], "meta": {"kind": kind}}
     return {"lines": [line], "meta": {"kind": kind}}
 
 
@@ -1496,9 +1534,12 @@ def _shorter(tok):
 def shrink(case):
     line = case["lines"][0]
     op, *a = line.split()
+    a = split_data(a)[0]
 
     def mk(toks):
-        return {"lines": [" ".join([op] + toks)], "meta": case.get("meta", {})}
+        c = _case(" ".join([op] + toks), None)       # cht/hist/ops: the data are taken again from the real code
+        c["meta"] = case.get("meta", {})
+        return c
     if op in ("fmt", "bytes"):
         if a[1] != "N":
             yield mk([a[0], "N"] + a[2:])
@@ -1609,6 +1650,7 @@ def shrink(case):
 
 def nontrivial(case, replies):
     op, *a = case["lines"][0].split()
+    a = split_data(a)[0]
     if op in ("fmt", "bytes"):
         return a[:3] != ["N", "N", "NNNNN"]
     if op == "cht":
@@ -1629,6 +1671,7 @@ def tags(case, replies):
     r = replies[0].split()
     yield "reply:" + r[0] + (":" + r[1] if r[0] == "err" and len(r) > 1 else "")
     op, *a = case["lines"][0].split()
+    a = split_data(a)[0]
     if op == "seq" and len(r) > 1:
         for kind in sorted(set(x.split(":")[0] for x in r[1].split("|"))):
             yield "seq-answer:" + {"s": "str", "b": "bytes", "e": "error", "none": "no-object"}.get(kind, kind)
@@ -1661,8 +1704,9 @@ LEVEL_TEXT = ("Proved in Lean for all colour values (incl. floats and float tupl
               "strings with ESC fragments).")
 LEVEL_NOTE = ("Kernel-checked: all 29 pinned theorems. Rest on the tie only: that the code has no state between calls / "
               "renderings (the model has none by construction - C09.calls_stateless, C09.hist_shows say what that means; "
-              "the seq and hist streams and the oracle's per-call judgement test it), that CHText operations are the ones "
-              "of Model/CHText.lean (C08's theorems), Python's re, str.encode, int(). Trusted: Lean kernel, "
+              "the seq and hist streams and the oracle's per-call judgement test it); what CHText operations produce is not "
+              "judged here (C08): the rendering of the real object's own chunk list is (diagnostic twins compare the "
+              "operations against Model/CHText.lean); Python's re, str.encode, int(). Trusted: Lean kernel, "
               "translator/adapter/oracle in harness/c09.py, and that real terminals implement SGR as Sgr.run (colon form "
               "38:5:n). Out of domain by decision: bool/list colour values, tuples with non-numeric members, "
               "'g+5'-style strings accepted by int(), object-lifetime effects (address reuse) across test cases.")
